@@ -585,4 +585,12 @@ theorem linkify_consultation_without_effect : type_of% @GM.Props.ConvertL.linkif
     document -/
 theorem conservative_linkify_iff_flush_insensitive : type_of% @GM.Props.ConvertL.conservative_linkify_iff_flush_insensitive := @GM.Props.ConvertL.conservative_linkify_iff_flush_insensitive
 
+/-- (re-export of `GM.Props.ConvertL.consultation_flush_merges`) `consultation_flush_merges` (flush-insensitivity, inside a line): flushing the pending text `[a, b)` into `parent` and later the
+    text `[b, c)` behind it leaves exactly the children one flush of `[a, c)` leaves — whatever the children are. So a run with
+    an extra consultation (Linkify declining, `nullParser`) and the run without it hold the SAME children again at the next
+    common flush; what stays visible of a consultation is only the cut in front of the end-of-line Text, which parseBlock
+    appends without merging (parser.go:1252-1269) — there the soft / hard break flag and the trailing-blank trim (with its repair
+    for an already flushed blank rest, parser.go:1258-1265) sit, and there the proviso of `ConservativeLinkify` lives. -/
+theorem consultation_flush_merges : type_of% @GM.Props.ConvertL.consultation_flush_merges := @GM.Props.ConvertL.consultation_flush_merges
+
 end GM.Props.C11
